@@ -6,7 +6,7 @@
 From Coq Require Import List NArith ZArith Lia.
 From Coq.Strings Require Import Byte.
 Import ListNotations.
-From BWLexer Require Import Utf8 Unicode Lexer LexerProofs CaseProofs PrintedProofs.
+From BWLexer Require Import Utf8 Unicode Lexer LexerProofs CaseProofs PrintedProofs WsProofs.
 From BWLexer.Gen Require Import LexTablesGen.
 
 (* ---------------------------------------------------------------- termination / channel closed *)
@@ -248,6 +248,37 @@ Theorem C16_printed_node_refuted :
   kinds [x2f;x61;x3e;x3c;x62;x3e] = [ItemError] /\ kinds [x2f;x61;x5c;x3c;x62;x3e] = [ItemError].
 Proof. vm_compute. split; reflexivity. Qed.
 Print Assumptions C16_printed_node_refuted.
+
+(* ---------------------------------------------------------------- white space between tokens *)
+(* (A) once a token has been emitted the lexer is in lexSpace; from there, ANY amount of ASCII white space in front of
+   the remaining input r -- including none: this is the insertion case -- changes nothing but the offsets: same
+   kinds, same lengths, every span moved by |ws|, same termination flag, for every fuel f. *)
+Theorem C16_whitespace_after_token : forall (U : uni), ascii_ok U ->
+  forall (f : nat) (l : lx) (ws : list byte) (r : list rw),
+    Forall (fun b => (9 <= bz b <= 13)%Z \/ bz b = 32%Z) ws ->
+    run U f SSpace (mkLx (map (fun b => (bz b, 1)) ws ++ r) (start l) (pos l) (last l)) =
+    (map (fun t => (tk_kind t, tk_start t + length ws, tk_end t + length ws))
+         (fst (run U f SSpace (mkLx r (start l) (pos l) (last l)))),
+     snd (run U f SSpace (mkLx r (start l) (pos l) (last l)))).
+Proof. exact run_after_token_ws. Qed.
+Print Assumptions C16_whitespace_after_token.
+
+(* positions never influence the lexer's decisions: a run from a state moved by d is the same run moved by d *)
+Theorem C16_shift_invariance : forall (U : uni) (d f : nat) (s : state) (l : lx),
+  run U f s (mkLx (rest l) (start l + d) (pos l + d) (last l)) =
+  (map (fun t => (tk_kind t, tk_start t + d, tk_end t + d)) (fst (run U f s l)), snd (run U f s l)).
+Proof. exact run_shift. Qed.
+Print Assumptions C16_shift_invariance.
+
+(* REFUTED as stated in the property (insertion between ANY two adjacent tokens): a filter function name is only
+   emitted by lexFilterFunction when '(' follows immediately; with white space in between it ends in an Error token.
+   ( "filter l(" versus "filter l (" ).  Listed finding C16-ws-filter-function; the fix is rejected by
+   bql/grammar TestRejectByParse, which pins this behaviour. *)
+Theorem C16_whitespace_insert_refuted :
+  kinds [x66;x69;x6c;x74;x65;x72;x20;x6c;x28] = [ItemFilter; ItemFilterFunction; ItemLPar; ItemEOF] /\
+  kinds [x66;x69;x6c;x74;x65;x72;x20;x6c;x20;x28] = [ItemFilter; ItemError].
+Proof. vm_compute. split; reflexivity. Qed.
+Print Assumptions C16_whitespace_insert_refuted.
 
 (* ---------------------------------------------------------------- examples: the statements are about real runs *)
 Example C16_example_select :
